@@ -89,6 +89,13 @@ func (env *Env) checkEvents(rs *RefState) string {
 				exh := lastFail && (s.MaxRetries != -1 && failed > s.MaxRetries || s.MaxDuration != 0 && last.T-env.ExecStart > int64(s.MaxDuration))
 				boundary := s.MaxDuration != 0 && last.T-env.ExecStart == int64(s.MaxDuration)
 				abortMust, abortMay := matchSet(s.Abort, last.Res.Result, last.Res.Error)
+				for _, name := range []string{"exceeded", "abort"} {
+					for _, e := range ev[name] {
+						if e.LastV != last.Res.Result || e.LastE != last.Res.Error {
+							return fmt.Sprintf("retry policy %d: %s event carries last result (%d,%v), the last attempt returned %s", i, name, e.LastV, e.LastE, resStr(last.Res))
+						}
+					}
+				}
 				ne, na := len(ev["exceeded"]), len(ev["abort"])
 				abort := lastFail && (abortMust || abortMay && na == 1)
 				switch {
@@ -213,9 +220,29 @@ func (env *Env) checkEvents(rs *RefState) string {
 				}
 				continue
 			}
-			for _, a := range apps {
+			nRetry := 0
+			for _, x := range env.Stack {
+				if x.Kind == KRetry {
+					nRetry++
+				}
+			}
+			retryDirectlyAbove := nRetry == 1 && i > 0 && env.Stack[i-1].Kind == KRetry && !env.hedgeAbove(i-1)
+			for ai, a := range apps {
 				if a.Out == nil {
 					continue
+				}
+				if retryDirectlyAbove && !a.In.Exec.IsCanceled() {
+					// what a hedge (its listener, its attempt) sees as the last result is the outcome of the
+					// previous pass through the hedge policy, which the retry policy recorded
+					wantV, wantE := 0, error(nil)
+					if ai > 0 && apps[ai-1].Out != nil {
+						wantV, wantE = apps[ai-1].Out.Res.Result, apps[ai-1].Out.Res.Error
+					}
+					for _, e := range env.eventsIn(i, a.In.Seq, a.Out.Seq)["hedge"] {
+						if e.LastV != wantV || e.LastE != wantE {
+							return fmt.Sprintf("hedge %d: OnHedge in pass %d carries last result (%d,%v), the previous pass ended with (%d,%v)", i, ai, e.LastV, e.LastE, wantV, wantE)
+						}
+					}
 				}
 				if got := len(env.eventsIn(i, a.In.Seq, a.Out.Seq)["hedge"]); got != a.Started-1 {
 					return fmt.Sprintf("hedge %d: OnHedge x%d, %d hedge attempts were started", i, got, a.Started-1)
@@ -264,8 +291,68 @@ func keys(m map[string][]*Event) []string {
 	return out
 }
 
+// checkListenerLast: what the retry policy's OnRetriesExceeded / OnAbort listeners and the hedge policy's
+// OnHedge listener see as the last result (C17: "LastResult and LastError seen by ... a listener").
+func (env *Env) checkListenerLast() string {
+	_, byLayer := env.Apps()
+	nRetry := 0
+	for _, x := range env.Stack {
+		if x.Kind == KRetry {
+			nRetry++
+		}
+	}
+	for i, s := range env.Stack {
+		apps := byLayer[i]
+		switch s.Kind {
+		case KRetry:
+			if env.hedgeAbove(i) {
+				continue
+			}
+			for _, a := range apps {
+				if a.Out == nil || a.In.Exec.IsCanceled() || len(a.Children) == 0 {
+					continue
+				}
+				last := a.Children[len(a.Children)-1].Out
+				if last == nil {
+					continue
+				}
+				ev := env.eventsIn(i, a.In.Seq, a.Out.Seq)
+				for _, name := range []string{"exceeded", "abort"} {
+					for _, e := range ev[name] {
+						if e.LastV != last.Res.Result || e.LastE != last.Res.Error {
+							return fmt.Sprintf("retry policy %d: %s listener sees last result (%d,%v), the last attempt returned %s", i, name, e.LastV, e.LastE, resStr(last.Res))
+						}
+					}
+				}
+			}
+		case KHedge:
+			if !(nRetry == 1 && i > 0 && env.Stack[i-1].Kind == KRetry && !env.hedgeAbove(i-1)) {
+				continue
+			}
+			for ai, a := range apps {
+				if a.Out == nil || a.In.Exec.IsCanceled() {
+					continue
+				}
+				wantV, wantE := 0, error(nil)
+				if ai > 0 && apps[ai-1].Out != nil {
+					wantV, wantE = apps[ai-1].Out.Res.Result, apps[ai-1].Out.Res.Error
+				}
+				for _, e := range env.eventsIn(i, a.In.Seq, a.Out.Seq)["hedge"] {
+					if e.LastV != wantV || e.LastE != wantE {
+						return fmt.Sprintf("hedge %d: the OnHedge listener in pass %d sees last result (%d,%v), the previous pass ended with (%d,%v)", i, ai, e.LastV, e.LastE, wantV, wantE)
+					}
+				}
+			}
+		}
+	}
+	return ""
+}
+
 // checkStats: C17.
 func (env *Env) checkStats() string {
+	if msg := env.checkListenerLast(); msg != "" {
+		return msg
+	}
 	hasHedge := false
 	hasTimer := false // a Timeout: its listener reads the statistics from another goroutine while the execution goes on
 	retryLayer := -1
